@@ -72,6 +72,10 @@ impl<T> JsonBody<T> {
         let mut deserializer = serde_json::Deserializer::from_slice(buffered_body.bytes.as_ref());
         let body = serde_path_to_error::deserialize(&mut deserializer)
             .map_err(|e| JsonDeserializationError { source: e })?;
+        // Anything but whitespace after the JSON value means that the body is not a JSON document.
+        deserializer.end().map_err(|e| JsonDeserializationError {
+            source: serde_path_to_error::Error::new(serde_path_to_error::Track::new().path(), e),
+        })?;
         Ok(JsonBody(body))
     }
 }
